@@ -133,6 +133,15 @@ def build(targets: Optional[List[str]] = None, timeout: int = 3000) -> Dict[str,
                                preexec_fn=_limit_memory)
             out = p.stdout + p.stderr
             rc = p.returncode
+            if rc != 0 and re.search(r"Killed|Error 137|Error 124|Out of memory|Cannot allocate memory", out) \
+                    and not re.search(r'File "\./[^"]+\.v", line \d+, characters [\d-]+:\s*\n?Error', out):
+                # a coqc was killed (out-of-memory killer / time limit on an overloaded machine), no proof error was
+                # reported: build what is left once more, two files at a time
+                cmd2 = ["make", "-j2", "-k", f"COQC=timeout {PER_FILE_TIMEOUT * 2} coqc"] + (targets or [])
+                p = subprocess.run(["timeout", str(timeout)] + cmd2, cwd=COQ, capture_output=True, text=True,
+                                   preexec_fn=_limit_memory)
+                out = p.stdout + p.stderr
+                rc = p.returncode
         except Exception as e:  # pragma: no cover
             out, rc = str(e), 99
         open(os.path.join(COQ, ".build.log"), "w").write(out)
